@@ -136,6 +136,20 @@ func (cr *checkRun) replay(o *Obl, r SolveResult) replayResult {
 			return replayResult{Reproduced: true, File: p}
 		}
 		return fail("real code does not panic on the solver's input (spurious model: an abstracted callee or library value)")
+	case strings.HasPrefix(o.Kind, "throw."):
+		if oc.Panic == "" || !isJSExceptionType(oc.PanicType) {
+			return fail("real code does not throw on the solver's input (spurious model: an abstracted callee or library value)")
+		}
+		ok, err := cr.evalPostOnObserved(o, r, oc)
+		if err != nil {
+			return fail("cannot evaluate throws clause on the inputs: " + err.Error())
+		}
+		if !ok {
+			rf.Reproduced = true
+			p := cr.writeReplay(o, r, rf, fmt.Sprintf("real code throws (%s) although the throws clause is false for these inputs", oc.Panic))
+			return replayResult{Reproduced: true, File: p}
+		}
+		return fail("throws clause holds for these inputs")
 	case strings.HasPrefix(o.Kind, "post."):
 		if oc.Panic != "" {
 			return fail("real code panics on this input; postcondition not applicable")
@@ -158,11 +172,16 @@ func (cr *checkRun) replay(o *Obl, r SolveResult) replayResult {
 // the model and the results fixed to the observed values.  The oracle is the contract.
 func (cr *checkRun) evalPostOnObserved(o *Obl, r SolveResult, oc outcome) (bool, error) {
 	enc0 := o.enc
-	k, err := strconv.Atoi(strings.TrimPrefix(o.Kind, "post."))
-	if err != nil || k < 1 || k > len(enc0.C.Ensures) {
+	isThrow := strings.HasPrefix(o.Kind, "throw.")
+	list := enc0.C.Ensures
+	if isThrow {
+		list = enc0.C.Throws
+	}
+	k, err := strconv.Atoi(strings.TrimPrefix(strings.TrimPrefix(o.Kind, "post."), "throw."))
+	if err != nil || k < 1 || k > len(list) {
 		return false, fmt.Errorf("bad clause index")
 	}
-	cl := enc0.C.Ensures[k-1]
+	cl := list[k-1]
 	var ok bool
 	var rerr error
 	func() {
@@ -185,12 +204,12 @@ func (cr *checkRun) evalPostOnObserved(o *Obl, r SolveResult, oc outcome) (bool,
 		}
 		fn := enc.Fn
 		res := fn.Signature.Results()
-		if len(oc.Results) != res.Len() {
+		if !isThrow && len(oc.Results) != res.Len() {
 			rerr = fmt.Errorf("result arity")
 			return
 		}
 		var vals []SV
-		for i := 0; i < res.Len(); i++ {
+		for i := 0; i < res.Len() && !isThrow; i++ {
 			t, err := enc.smtOfDump(oc.Results[i], res.At(i).Type())
 			if err != nil {
 				rerr = err
@@ -199,13 +218,15 @@ func (cr *checkRun) evalPostOnObserved(o *Obl, r SolveResult, oc outcome) (bool,
 			vals = append(vals, SV{t: res.At(i).Type(), term: t})
 		}
 		extra := map[string]SV{}
-		var rv SV
-		if len(vals) == 1 {
-			rv = vals[0]
-		} else {
-			rv = SV{tuple: vals}
+		if !isThrow {
+			var rv SV
+			if len(vals) == 1 {
+				rv = vals[0]
+			} else {
+				rv = SV{tuple: vals}
+			}
+			bindResults(extra, fn, rv)
 		}
-		bindResults(extra, fn, rv)
 		c := f.evalContractBool(cl, f.curHeap, extra, nil)
 		var eqs []string
 		for _, t := range enc0.probeTerms() {
